@@ -57,6 +57,18 @@ def gen_cases(tier, seed):
                       "size": (26 * MB + 11 if i % 8 == 3 else 50 * MB + 3) if legacy else [13 * MB + 7, 21 * MB, 26 * MB + 5][i % 3],
                       "payload": ["random", "mixed"][i % 2], "strategy": strategies[i % len(strategies)],
                       "N": [1, 2, 3, 4, 8][(i // 2) % 5], "mode": "free" if i % 5 == 4 else "coop"})
+    # ---- model <-> real code under the scheduler shim: schedules generated from the model replayed on the real
+    #      thread pool (event traces must be equal), and seeded real schedules checked for acceptance by the model
+    n_sched = {"quick": 12, "search": 30, "thorough": 60}[tier]
+    gen_strats = ["uniform", "slow_writer", "descending", "wake_main", "fast_main", "slow_main", "sticky", "roundrobin",
+                  "wake_other", "slow_workers", "fast_writer"]
+    for i in range(n_sched):
+        pipe = ["CF", "DL", "CL", "DF"][i % 4]
+        cases.append({"kind": "sched", "seed": rng.randrange(1 << 48), "pipe": pipe,
+                      "N": [2, 1, 3, 4, 8][(i // 4) % 5] if pipe in ("CF", "CL") else 1,
+                      "jobs": {"CF": [4, 6, 3, 7], "CL": [3, 2, 4, 3], "DL": [7, 6, 9, 7], "DF": [5, 6, 7, 5]}[pipe][(i // 4) % 4],
+                      "exact": (i // 4) % 3 == 1,       # input size an exact multiple of the chunk size (reader chain ends on an empty read)
+                      "strategies": [gen_strats[(3 * i + k) % len(gen_strats)] for k in range(3)]})
     if tier == "thorough":
         for i in range(4):
             cases.append({"kind": "tsan", "seed": rng.randrange(1 << 48), "fmt": "legacy" if i % 2 else "lz4f",
@@ -300,7 +312,157 @@ def run_tsan(st, case):
         res["keys"] = [hashlib.sha1(repr(sorted(detail.items())).encode()).hexdigest()]
     return res
 
+# ---------------------------------------------------------------- model schedules on the real code
+def read_trace(path):
+    pools, lines, special = [], [], []
+    if not os.path.exists(path):
+        return pools, lines, ["no trace file"]
+    for l in open(path).read().strip().split("\n"):
+        if not l:
+            continue
+        f = l.split(" ", 2)
+        if f[2].startswith("pool "):
+            pools.append(f[2])
+        elif f[2].startswith(("VIOL", "DEADLOCK", "MISMATCH", "SCHEDULE-EXHAUSTED")):
+            special.append(l)
+        else:
+            lines.append(l)
+    return pools, lines, special
+
+def first_diff(a, b):
+    for i in range(min(len(a), len(b))):
+        if a[i] != b[i]:
+            return i, a[i], b[i]
+    if len(a) != len(b):
+        i = min(len(a), len(b))
+        return i, a[i] if i < len(a) else None, b[i] if i < len(b) else None
+    return None
+
+def run_sched(st, case):
+    ctx = st["ctx"]
+    orc = st["oracle"]
+    rng = random.Random(case["seed"])
+    res = {"status": "ok", "kind": "sched", "evals": 0, "keys": [], "stats": collections.Counter()}
+    detail = {k: case[k] for k in ("seed", "pipe", "N", "jobs", "exact", "strategies")}
+    pipe, N, jobs = case["pipe"], case["N"], case["jobs"]
+    K = st.setdefault("consts", [int(x) for x in orc.ask("consts").split()])
+    depths = {"CL": (K[0], K[1]), "CF": (K[2], K[3]), "DL": (K[4], K[5]), "DF": (K[6], K[7])}[pipe]
+    NB, PB = (K[8] if pipe == "DL" else K[10]), K[11]
+    MB = 1 << 20
+    chunk = 8 * MB if pipe in ("CL", "DL") else 4 * MB
+    with mtlib.TmpDir() as d:
+        src = os.path.join(d, "in")
+        if pipe == "DF":
+            size = jobs * 4 * MB + rng.randrange(1000, 100000)          # random data: compressed size ~ size => `jobs`+1 input chunks
+            payload = mtlib.gen_payload(rng, size, "random") if not case["exact"] else \
+                      mtlib.gen_payload(rng, size // 2, "random") + mtlib.gen_payload(rng, size, "text")
+        else:
+            size = jobs * chunk + (0 if case["exact"] else rng.randrange(1, chunk // 2))
+            payload = mtlib.gen_payload(rng, size, rng.choice(["mixed", "random"]))
+        with open(src, "wb") as f:
+            f.write(payload)
+        del payload
+        legacy = pipe in ("CL", "DL")
+        ref = os.path.join(d, "ref.lz4")
+        if not cli(res, ctx["mt"], ["-f", "-q", "-T1"] + (["-l"] if legacy else []) + [src, ref], "MT compression -T1", detail):
+            return res
+        if pipe in ("CL", "CF"):
+            args = ["-f", "-q", "-T%d" % N] + (["-l"] if legacy else []) + [src, os.path.join(d, "o")]
+            want_sha = mtlib.file_sha(ref)
+            nfull, last = size // chunk, 1 if size % chunk else 0
+            cfg = [pipe, N, depths[0], depths[1], NB, PB, nfull, last, 0, "-"]
+        else:
+            args = ["-d", "-f", "-q", ref, os.path.join(d, "o")]
+            want_sha = mtlib.file_sha(src)
+            cfg = [pipe, 1, depths[0], depths[1], NB, PB, 0, 0, -(-size // chunk) if pipe == "DL" else 0, "-"]
+        trace, picks, sched = (os.path.join(d, x) for x in ("trace", "picks", "sched"))
+
+        def check_pools(pools):
+            want = ["pool 0 workers=%d depth=%d" % (cfg[1], depths[0]), "pool 1 workers=1 depth=%d" % depths[1]]
+            if pools != want:
+                fail(res, "TPool_create calls of the real run %r differ from the generated call-site constants %r" % (pools, want), detail, "corr_fail")
+                return False
+            return True
+
+        # (a) a seeded schedule on the real code; the model must accept it and produce the same events
+        seed = rng.randrange(1 << 31)
+        env = mtlib.shim_env(mode="coop", seed=seed, trace=trace, picks=picks, sticky=rng.choice([0, 0, 60, 90]),
+                             wake=rng.choice(["random", "first", "last", "main", "notmain"]))
+        if not cli(res, ctx["shim"], args, "%s under a seeded cooperative schedule (seed %d)" % (pipe, seed), detail, env=env):
+            return res
+        if mtlib.file_sha(args[-1]) != want_sha:
+            return fail(res, "%s under seeded schedule %d: output differs from the sequential result" % (pipe, seed), detail)
+        pools, rlines, special = read_trace(trace)
+        if special:
+            return fail(res, "real run reported: " + special[0], detail)
+        if not check_pools(pools):
+            return res
+        if pipe == "DF":      # number of output buffers per input chunk: a function of the data, read off the real trace
+            outs, cur = [], None
+            for l in rlines:
+                t = l.split(" ", 2)[2]
+                if t.startswith("start F"):
+                    outs.append(0)
+                elif t.startswith("sub w Y"):
+                    outs[-1] += 1
+            cfg[9] = ",".join(map(str, outs)) if outs else "-"
+            res["stats"]["sched_DF_chunks_%d_outs_%d" % (len(outs), sum(outs))] += 1
+        cfg_t = [str(x) for x in cfg]
+        pk = [l.split() for l in open(picks).read().strip().split("\n")]
+        pstr = ",".join("%s:%s" % (t, w) for t, w in pk) + ",0:0"     # the last step of main ends with the process, it is not logged
+        r = orc.ask("sim", *cfg_t, pstr).split("|")
+        res["evals"] += len(pk)
+        if r[0] != "accepted" or "final=1 err=0 viol=0" not in r[1]:
+            return fail(res, "model does not accept the schedule observed on the real code: %s / %s" % (r[0], r[1][:200]),
+                        dict(detail, shim_seed=seed, cfg=cfg_t, picks=pstr if len(pstr) < 3000 else pstr[:3000] + "..."), "corr_fail")
+        mlines = r[2].split(";") if r[2] else []
+        df = first_diff(rlines, mlines)
+        if df:
+            return fail(res, "event traces differ at event %d: real %r, model %r" % df, dict(detail, shim_seed=seed, cfg=cfg_t), "corr_fail")
+        res["stats"]["sched_real_to_model_%s" % pipe] += 1
+        res["stats"]["sched_steps"] += len(pk)
+
+        # (b) schedules generated from the model by adversarial strategies, replayed on the real code
+        for strat in case["strategies"]:
+            gseed = rng.randrange(1 << 30)
+            g = orc.ask("gen", *cfg_t, strat, str(gseed)).split("|")
+            if g[0] != "complete" or "final=1 err=0 viol=0" not in g[1]:
+                return fail(res, "model run under strategy %s ended with %s (%s): contradicts C13_no_deadlock / C13_no_reuse" % (strat, g[0], g[1][:200]),
+                            dict(detail, cfg=cfg_t, gen_seed=gseed, picks=g[2][:3000]))
+            mp = [x.split(":") for x in g[2].split(",")]
+            with open(sched, "w") as f:
+                f.write("".join("%s %s\n" % (t, w) for t, w in mp))
+            for x in (trace, picks):
+                if os.path.exists(x):
+                    os.remove(x)
+            env = mtlib.shim_env(mode="coop", seed=1, trace=trace, picks=picks, sched=sched)
+            rc, out, err = mtlib.run([ctx["shim"]] + args, timeout=240, env=env)
+            res["evals"] += len(mp)
+            what = "%s replaying model schedule (strategy %s, seed %d)" % (pipe, strat, gseed)
+            dd = dict(detail, cfg=cfg_t, strategy=strat, gen_seed=gseed)
+            if rc == "timeout":
+                return fail(res, what + ": did not terminate", dd)
+            if rc == 96:
+                return fail(res, what + ": the real code cannot follow the schedule: " + err[-300:], dd, "corr_fail")
+            if rc != 0:
+                return fail(res, what + ": " + mtlib.SHIM_RC.get(rc, "exit status %s" % rc), dict(dd, stderr=err[-800:]))
+            pools, rlines, special = read_trace(trace)
+            if special:
+                return fail(res, what + ": " + special[0], dd, "corr_fail" if "EXHAUSTED" in special[0] else "prop_fail")
+            if mtlib.file_sha(args[-1]) != want_sha:
+                return fail(res, what + ": output differs from the sequential result", dd)
+            mlines = g[3].split(";") if g[3] else []
+            df = first_diff(rlines, mlines)
+            if df:
+                return fail(res, what + ": event traces differ at event %d: real %r, model %r" % df, dd, "corr_fail")
+            res["stats"]["sched_model_to_real_%s_%s" % (pipe, strat)] += 1
+            res["stats"]["sched_steps"] += len(mp)
+            res["keys"].append(hashlib.sha1(g[2].encode()).hexdigest())
+    return res
+
 def run_case(st, case):
+    if case["kind"] == "sched":
+        return run_sched(st, case)
     if case["kind"] == "wr":
         return run_wr(st, case)
     if case["kind"] == "e2e":
